@@ -29,16 +29,18 @@ import (
 
 // Variant is one presentation of the program.
 type Variant struct {
-	Name      string            `json:"name"`
-	RulePerm  []int             `json:"rulePerm,omitempty"`
-	FactPerm  []int             `json:"factPerm,omitempty"`
-	DeclPerm  []int             `json:"declPerm,omitempty"`
-	Alpha     bool              `json:"alpha,omitempty"`
-	PredMap   map[string]string `json:"predMap,omitempty"`
-	Package   string            `json:"package,omitempty"`
-	Store     string            `json:"store,omitempty"`
-	DetOrder  bool              `json:"detOrder,omitempty"`
-	FactsMove bool              `json:"factsMove,omitempty"` // text facts are pre-loaded and vice versa
+	Name     string `json:"name"`
+	RulePerm []int  `json:"rulePerm,omitempty"`
+	FactPerm []int  `json:"factPerm,omitempty"`
+	DeclPerm []int  `json:"declPerm,omitempty"`
+	Alpha    bool   `json:"alpha,omitempty"`
+	// AlphaLibNames: the alpha-renaming uses the names X0, X1, ... which the library generates for wildcards.
+	AlphaLibNames bool              `json:"alphaLibNames,omitempty"`
+	PredMap       map[string]string `json:"predMap,omitempty"`
+	Package       string            `json:"package,omitempty"`
+	Store         string            `json:"store,omitempty"`
+	DetOrder      bool              `json:"detOrder,omitempty"`
+	FactsMove     bool              `json:"factsMove,omitempty"` // text facts are pre-loaded and vice versa
 	// Again: after the evaluation the same text is parsed and analysed afresh and evaluated a second time on the
 	// same store (which now holds the model, internal relations included): running again must not change anything.
 	Again bool `json:"again,omitempty"`
@@ -95,7 +97,7 @@ func renameVarsAtom(a prog.Atom, m map[string]string) prog.Atom {
 	return n
 }
 
-func alphaRule(r prog.Rule) prog.Rule {
+func alphaRule(r prog.Rule, libNames bool) prog.Rule {
 	vars := map[string]bool{}
 	r.Head.Vars(vars)
 	for _, l := range r.Body {
@@ -122,7 +124,11 @@ func alphaRule(r prog.Rule) prog.Rule {
 	m := map[string]string{}
 	for i, v := range names {
 		m[v] = fmt.Sprintf("Q%d", len(names)-i) // reverses the order of the names
+		if libNames {
+			m[v] = fmt.Sprintf("X%d", i) // the names the library itself gives to wildcards (X0, X1, ...)
+		}
 	}
+	delete(m, "_")
 	n := prog.Rule{Head: renameVarsAtom(r.Head, m)}
 	for _, l := range r.Body {
 		nl := l
@@ -181,7 +187,7 @@ func apply(g prog.Generated, v Variant) (prog.Program, []prog.Atom, map[string]s
 	facts = permute(facts, v.FactPerm)
 	if v.Alpha {
 		for i, r := range p.Rules {
-			p.Rules[i] = alphaRule(r)
+			p.Rules[i] = alphaRule(r, v.AlphaLibNames)
 		}
 	}
 	back := map[string]string{}
@@ -702,6 +708,7 @@ func genVariants(t *rapid.T, preds []string, nRules, nFacts, nDecls int) []Varia
 		{Name: "facts-last", FactsAfter: nFacts, RulePerm: genPerm(t, nRules, "rulePerm3")},
 		{Name: "alpha", Alpha: true},
 		{Name: "again-same-store", Again: true},
+		{Name: "alpha-library-names", Alpha: true, AlphaLibNames: true},
 		{Name: "rename-flip", PredMap: genPredMap(t, preds, true)},
 		{Name: "rename-perm", PredMap: genPredMap(t, preds, false)},
 		{Name: "package", Package: "pk"},
